@@ -65,8 +65,24 @@ def inbound_ack_write_failed_after_delivery(events, v):
     return False
 
 
+def inbound_pubcomp_lost_after_successful_write(events, v):
+    """F5 (mirror image): before the violation a client write carrying a PUBCOMP was reported successful although none /
+    not all of its bytes reached the broker, and the connection was lost right afterwards (bytes accepted by the local
+    send buffer and never transmitted).  The operation has completed, the broker re-sends its PUBREL on the resumed
+    session, and nothing in the client answers a PUBREL nobody waits for."""
+    ev = _before(events, v["n"] + 1)
+    lost = set()
+    for i, e in enumerate(ev):
+        if e["e"] == "c_write_end" and e.get("ec") == "ok":
+            nxt = ev[i + 1] if i + 1 < len(ev) else None
+            if nxt and nxt["e"] == "fault" and nxt.get("on") == "after_write" and nxt.get("c") == e.get("c"):
+                lost.add((e["c"], e["w"]))
+    if not lost: return False
+    return any(p["e"] == "c_pkt" and (p["c"], p["w"]) in lost and p.get("type") == "PUBCOMP" for p in ev)
+
+
 PREDICATES = {f.__name__: f for f in (cancelled_publish_aborted_after_reconnect, quota_corrupted_earlier, unsolicited_pubrel,
-                                         inbound_ack_write_failed_after_delivery)}
+                                        inbound_ack_write_failed_after_delivery, inbound_pubcomp_lost_after_successful_write)}
 
 
 def match(finding, events, v):
